@@ -124,15 +124,13 @@ func init() {
 		"(" + pkgHWS + ".Msg).DataTo":          dataTo,
 		pkgHWS + ".MsgFromProto":               msgFromProto,
 		"(" + pkgHWS + ".ResponseSender).Send": func(x *Exec, st *State, a []Val, s ssa.Instruction) []Val {
+			x.countDelivery(st, a[0], a[1].T(), s)
 			st.addEvent(Event{Kind: "send", Args: a})
 			return nil
 		},
 		"(" + pkgHWS + ".ResponseSender).SendMsg": func(x *Exec, st *State, a []Val, s ssa.Instruction) []Val {
-			// a[1] is a Msg; count deliveries per (responder, source proto message)
-			src := msgSrc(a[1])
-			arr := st.heapGet("ghost.sent", ArrSort(ArrSort(SInt)))
-			inner := Select(arr, a[0].T())
-			st.heapSet("ghost.sent", Store(arr, a[0].T(), Store(inner, src, Add(Select(inner, src), IntLit(1)))))
+			// a[1] is a Msg; count deliveries per (recipient, source proto message)
+			x.countDelivery(st, a[0], msgSrc(a[1]), s)
 			st.addEvent(Event{Kind: "sendmsg", Args: a})
 			return nil
 		},
@@ -405,4 +403,21 @@ func keyHasPrefix(key string, ps ...string) bool {
 		}
 	}
 	return false
+}
+
+// countDelivery increments the ghost delivery counter. When the responder was loaded from the
+// Responder field of a Participant object the counter is keyed by that participant
+// (ghost.delivered[participant][message]); otherwise by the responder value (ghost.sent).
+func (x *Exec) countDelivery(st *State, responder Val, src Term, site ssa.Instruction) {
+	name, key := "ghost.sent", responder.T()
+	if ci, ok := site.(ssa.CallInstruction); ok && ci.Common().IsInvoke() {
+		if obj, fa, ok := traceField(ci.Common().Value, 0); ok && fieldName(fa) == "Responder" && typeName(ptrElem(fa.X.Type())) == "models.Participant" {
+			if ov, have := st.top().locals[obj]; have {
+				name, key = "ghost.delivered", ov.T()
+			}
+		}
+	}
+	arr := st.heapGet(name, ArrSort(ArrSort(SInt)))
+	inner := Select(arr, key)
+	st.heapSetAt(name, Store(arr, key, Store(inner, src, Add(Select(inner, src), IntLit(1)))), &key)
 }
